@@ -26,15 +26,16 @@ def cvx_args(pr, rng, sparseG=False, sparseA=False, junk=False, sparseP=False):
     G = pr.G
     h = pr.h
     if junk:
-        G = gp.add_junk(rng, G, pr.dims)
-        h = gp.add_junk(rng, h, pr.dims)
+        mag = rng.choice([50.0, 50.0, 0.0])          # unrelated numbers, or zeros (= lower triangle only)
+        G = gp.add_junk(rng, G, pr.dims, mag)
+        h = gp.add_junk(rng, h, pr.dims, mag)
     a = {"c": mk(pr.c), "G": mk(G, sparseG, rng if (sparseG and not getattr(pr, "pl", {}).get("structurally-sparse")) else None), "h": mk(h),
          "dims": pr.dims.asdict(), "A": mk(pr.A, sparseA), "b": mk(pr.b)}
     if pr.P is not None:
         P = np.array(pr.P)
         if junk:
             n = P.shape[0]
-            P = np.tril(P) + np.triu(np.array([[rng.uniform(-50, 50) for _ in range(n)] for _ in range(n)]), 1)
+            P = np.tril(P) + (np.triu(np.array([[rng.uniform(-50, 50) for _ in range(n)] for _ in range(n)]), 1) if rng.random() < 0.6 else 0.0)
         a["P"] = mk(P, sparseP)
         a["q"] = mk(pr.q)
     return a
@@ -56,8 +57,9 @@ def split_blocks(v, dims):
 def wrapper_args(entry, pr, rng, sparse=False, junk=False):
     """arguments of lp / socp / sdp for a Prob whose dims fit the entry point"""
     d = pr.dims
-    G = gp.add_junk(rng, pr.G, d) if junk else pr.G
-    h = gp.add_junk(rng, pr.h, d) if junk else pr.h
+    mag = rng.choice([50.0, 50.0, 0.0]) if junk else 0.0
+    G = gp.add_junk(rng, pr.G, d, mag) if junk else pr.G
+    h = gp.add_junk(rng, pr.h, d, mag) if junk else pr.h
     a = {"c": mk(pr.c), "A": mk(pr.A, sparse and rng.random() < 0.5), "b": mk(pr.b)}
     if entry == "lp":
         a["G"] = mk(G, sparse); a["h"] = mk(h)
@@ -250,6 +252,21 @@ def call_entry(entry, pr, args, kktsolver=None, ps=None, ds=None, options=None, 
     kw = {}
     if options is not None:
         kw["options"] = options
+    inner = None
+    saved_globals = None
+    if options is not None and len(options) == 0:
+        saved_globals = dict(solvers.options)
+        solvers.options.clear()
+        solvers.options.update({"show_progress": False, "feastol": 1e-2, "abstol": 1e-2, "reltol": 1e-1, "maxiters": 3})
+    try:
+        return _call_entry(entry, pr, args, kktsolver, ps, ds, solver, kw)
+    finally:
+        if saved_globals is not None:
+            solvers.options.clear(); solvers.options.update(saved_globals)
+
+
+def _call_entry(entry, pr, args, kktsolver, ps, ds, solver, kw):
+    from cvxopt import solvers
     inner = None
     try:
         if entry == "conelp":
